@@ -24,6 +24,7 @@ ITER_CONSUMERS = {
     SEL + "repopulate_tx": ("all", "looks records up by the context's own key ids (a key id embeds its account path)"),
     c.LW + "api_impl::owner::get_stored_tx": ("all", "look-up of a log entry by id to find its slate uuid; reads only"),
     c.LW + "api_impl::owner::update_txs_via_kernel": ("account", "is a change output of this account still waiting for the entry (C04.R9; added with fix /repo owner.rs update_txs_via_kernel)"),
+    c.LW + "internal::scan::cancel_tx_log_entry": ("account", "the other reservations of the entry a scan cancels (released with it)"),
     c.LW + "internal::keys::accounts": ("n/a", ""),
 }
 ITER_FNS = (c.WB + "iter", c.WB + "tx_log_iter", c.WOB + "iter", c.WOB + "tx_log_iter")
@@ -232,6 +233,42 @@ def closure_true_requires(g, x, db, allow_none=False):
     return trues > 0
 
 
+def sent_entry_figures(ctx, R5, lk):
+    """lock_tx_context books the sent entry with the figures of the records it writes (debited = inputs locked,
+    credited = change outputs created)."""
+    run = ctx.run
+    # amount_debited: a sum whose addends are the values of the coins read back from the batch and locked
+    asg = vf.field_assignments(lk, TLE, "amount_debited")
+    held = False
+    if len(asg) == 1 and asg[0][1]["r"]["k"] == "use":
+        terms = _sum_terms(lk, asg[0][1]["r"]["o"])
+        adds = [p for k, p in terms if k == "add"]
+        held = bool(adds) and all(k in ("init0", "add") for k, _p in terms) and all(vf.has_field(p, OD, "value") and vf.has_call(p, c.WOB + "get") for p in adds)
+        if held:
+            # the addition sits in the loop that locks the coin (same coin local)
+            locks = cfg.find_calls(lk, c.WOB + "lock_output")
+            held = len(locks) == 1
+    run.instance(R5, {"fn": "lock_tx_context", "obligation": "TxLogEntry.amount_debited = sum of OutputData.value of the coins locked"}, held=held)
+    if not held:
+        run.finding(Finding(R5, lk.id, "amount_debited of the sent entry is not the sum of the locked inputs' values", site=lk.loc()))
+    # amount_credited: += the same amount that is written as the change output's value
+    lits = vf.struct_literals(lk, OD)
+    asg = vf.field_assignments(lk, TLE, "amount_credited")
+    held = False
+    if len(lits) == 1 and asg:
+        vloc = vf.strip_clones(lk, vf.literal_field(lits[0][1], "value"))
+        ok = 0
+        for b, st in asg:
+            r = st["r"]
+            ops = _add_of(lk, r)
+            if ops and any(vf.strip_clones(lk, o) == vloc for o in ops):
+                ok += 1
+        held = ok == len(asg)
+    run.instance(R5, {"fn": "lock_tx_context", "obligation": "TxLogEntry.amount_credited += the value written to the change output"}, held=held)
+    if not held:
+        run.finding(Finding(R5, lk.id, "amount_credited of the sent entry is not the sum of the change outputs' values", site=lk.loc()))
+
+
 def run(ctx):
     run = ctx.run
     db = ctx.db
@@ -401,36 +438,7 @@ def run(ctx):
     run.rule(R5, "log entries are written with the figures of the outputs they account for (debited = value of the inputs locked, credited = value of the outputs created)", floor=6)
     lk = ctx.fn(SEL + "lock_tx_context")
     if lk:
-        # amount_debited: a sum whose addends are the values of the coins read back from the batch and locked
-        asg = vf.field_assignments(lk, TLE, "amount_debited")
-        held = False
-        if len(asg) == 1 and asg[0][1]["r"]["k"] == "use":
-            terms = _sum_terms(lk, asg[0][1]["r"]["o"])
-            adds = [p for k, p in terms if k == "add"]
-            held = bool(adds) and all(k in ("init0", "add") for k, _p in terms) and all(vf.has_field(p, OD, "value") and vf.has_call(p, c.WOB + "get") for p in adds)
-            if held:
-                # the addition sits in the loop that locks the coin (same coin local)
-                locks = cfg.find_calls(lk, c.WOB + "lock_output")
-                held = len(locks) == 1
-        run.instance(R5, {"fn": "lock_tx_context", "obligation": "TxLogEntry.amount_debited = sum of OutputData.value of the coins locked"}, held=held)
-        if not held:
-            run.finding(Finding(R5, lk.id, "amount_debited of the sent entry is not the sum of the locked inputs' values", site=lk.loc()))
-        # amount_credited: += the same amount that is written as the change output's value
-        lits = vf.struct_literals(lk, OD)
-        asg = vf.field_assignments(lk, TLE, "amount_credited")
-        held = False
-        if len(lits) == 1 and asg:
-            vloc = vf.strip_clones(lk, vf.literal_field(lits[0][1], "value"))
-            ok = 0
-            for b, st in asg:
-                r = st["r"]
-                ops = _add_of(lk, r)
-                if ops and any(vf.strip_clones(lk, o) == vloc for o in ops):
-                    ok += 1
-            held = ok == len(asg)
-        run.instance(R5, {"fn": "lock_tx_context", "obligation": "TxLogEntry.amount_credited += the value written to the change output"}, held=held)
-        if not held:
-            run.finding(Finding(R5, lk.id, "amount_credited of the sent entry is not the sum of the change outputs' values", site=lk.loc()))
+        sent_entry_figures(ctx, R5, lk)
         for fld, src in (("tx_slate_id", (c.LW + "slate::Slate", "id")), ("fee", (c.LW + "types::Context", "fee"))):
             vf.check_field_source(ctx, R5, lk, dest=(TLE, fld), src_field=src, what="TxLogEntry.%s := %s.%s" % (fld, src[0].split("::")[-1], src[1]))
     bro = ctx.fn(SEL + "build_recipient_output")
